@@ -74,6 +74,8 @@ type Universe struct {
 	// RepoFuncs are all SSA functions (incl. anonymous and generic bodies) whose source is under /repo.
 	RepoFuncs []*ssa.Function
 	AllDeps   bool
+	// Renames: declarations analysed under their pinned names (normalise.go)
+	Renames []string
 }
 
 func verifRoot() string {
@@ -225,6 +227,36 @@ func loadUniverseOverlay(name string, bc BuildConfig, allDeps bool, overlay map[
 			errs = errs[:8]
 		}
 		return nil, fmt.Errorf("%s: type-check/load errors: %s", name, strings.Join(errs, "; "))
+	}
+	// renamed functions / fields / parameters get their pinned names back, in memory (normalise.go)
+	if os.Getenv("VERIF_NO_NORMALISE") == "" && !genPinnedMode {
+		var repo []*packages.Package
+		packages.Visit(pkgs, nil, func(p *packages.Package) {
+			if isRepoPkg(p) {
+				repo = append(repo, p)
+			}
+		})
+		if ov, notes := normaliseNames(repo, cfg.Fset, overlay); ov != nil {
+			cfg2 := &packages.Config{Mode: mode, Dir: dir, Env: env, Tests: false, Fset: token.NewFileSet(), Overlay: ov, BuildFlags: cfg.BuildFlags}
+			pkgs2, err2 := packages.Load(cfg2, patterns...)
+			clean := err2 == nil && len(pkgs2) > 0
+			if clean {
+				packages.Visit(pkgs2, nil, func(p *packages.Package) {
+					if isRepoPkg(p) && len(p.Errors) > 0 {
+						clean = false
+					}
+				})
+			}
+			if clean {
+				pkgs = pkgs2
+				u.Fset = cfg2.Fset
+				u.ByPath = map[string]*packages.Package{}
+				packages.Visit(pkgs, nil, func(p *packages.Package) { u.ByPath[p.PkgPath] = p })
+				u.Renames = notes
+			} else {
+				u.Renames = []string{"renamed declarations were found but the tree does not type-check under the pinned names (a name is taken): analysed as it is"}
+			}
+		}
 	}
 	for _, p := range pkgs {
 		if isRepoPkg(p) {
